@@ -26,10 +26,10 @@ from . import c09c15_common as C
 
 VARIANTS = {'R1': ['1'], 'R2': ['v', 'c', 'vc'], 'R3': ['neg', 'flip', 'sub'], 'R4': ['1'], 'R5': ['lin', 'ninf'],
             'R6': ['loop', 'elem'], 'R7': ['2', '0.4', '2.5'], 'R8': ['args', 'gen', 'tup', 'bl', 'll', 'lb'], 'R9': ['1']}
-BASES = ['lp', 'socp', 'ro_box', 'ro_norm', 'ro_ball', 'ro_boxeq', 'ro_zbox', 'ro_zmir', 'dro', 'dro_pl']
-HOWS = {'lp': ['def', 'eco'], 'socp': ['eco', 'grb'], 'ro_box': ['def', 'eco'], 'ro_norm': ['def', 'eco'],
+BASES = ['lp', 'milp', 'socp', 'ro_box', 'ro_norm', 'ro_ball', 'ro_boxeq', 'ro_zbox', 'ro_zmir', 'dro', 'dro_pl']
+HOWS = {'lp': ['def', 'eco'], 'milp': ['def', 'ort'], 'socp': ['eco', 'grb'], 'ro_box': ['def', 'eco'], 'ro_norm': ['def', 'eco'],
         'ro_ball': ['eco'], 'ro_boxeq': ['def'], 'ro_zbox': ['def', 'eco'], 'ro_zmir': ['def'], 'dro': ['def', 'eco'], 'dro_pl': ['def']}
-NOT_APPLICABLE = {('dro', 'R9'), ('dro_pl', 'R9')}
+NOT_APPLICABLE = {('dro', 'R9'), ('dro_pl', 'R9'), ('milp', 'R9')}
 
 
 def palettes(k):
@@ -230,6 +230,8 @@ class Builder(object):
         for name, kind, shape in order:
             if kind == 'dvar':
                 out[name] = self.m.dvar(shape)
+            elif kind in ('ivar', 'bvar'):
+                out[name] = self.m.dvar(shape, 'I' if kind == 'ivar' else 'B')
             elif kind == 'rvar':
                 out[name] = self.m.rvar(shape)
             elif kind == 'ldr':
@@ -262,6 +264,26 @@ def build_det(b, socp):
     obj = p['cl'] @ x + 0.5 * w[0] + 0.25 * w[1] - 0.25 * vv[0] + 0.375 * vv[1]
     if b.has('R6') == 'elem':
         obj = sum(float(p['cl'][j]) * x[j] for j in range(3)) + 0.5 * w[0] + 0.25 * w[1] - 0.25 * vv[0] + 0.375 * vv[1]
+    b.finish(obj)
+
+
+def build_milp(b):
+    """Mixed-integer base: continuous + integer + binary columns; the continuous ones carry FRACTIONAL lower and upper
+    bounds that are active at the optimum (as bound objects / rows / infinity-norm under R5)."""
+    p = b.p
+    v = b.declare([('x', 'dvar', 2), ('n', 'ivar', 2), ('q', 'bvar', 2)])
+    x, n, q = v['x'], v['n'], v['q']
+    sh = p['shift']
+    b.collect(b.box(x, np.array([0.5, -0.75]), np.array([3.5, 2.5 + sh])))     # lower active on x0, upper on x1
+    b.collect(b.box(n, np.array([0.0, -2.0]), np.array([4.0, 3.0])))
+    b.collect(b.rows_leq(np.array([[1.0, 0.0], [0.0, 1.0]]), x, np.array([3.25, 3.0])))
+    b.collect([b.geq(n[0], x[0] + 0.75)])             # n0 >= 1.25 -> 2
+    b.collect([b.leq(x[1], 1.25 + n[1] + 0.5 * q[0])])
+    b.collect([b.geq(q[0] + q[1], 1)])
+    b.collect(b.eq(n[1] - q[1], 1))
+    obj = p['c'][0] * x[0] - p['c'][1] * x[1] + 0.75 * n[0] + 0.5 * n[1] + 0.25 * q[0] + 0.375 * q[1]
+    if b.has('R6') == 'elem':
+        obj = float(p['c'][0]) * x[0] - float(p['c'][1]) * x[1] + 0.75 * n[0] + 0.5 * n[1] + 0.25 * q[0] + 0.375 * q[1]
     b.finish(obj)
 
 
@@ -441,6 +463,8 @@ def build(base, act, pal):
         build_det(b, False)
     elif base == 'socp':
         build_det(b, True)
+    elif base == 'milp':
+        build_milp(b)
     elif base in ('ro_zbox', 'ro_zmir'):
         build_roz(b, base[3:])
     elif base.startswith('ro_'):
